@@ -19,7 +19,7 @@ SPEC = dict(
     rule=("wire: one case = one random abstract script (what code, 0-60 uniquely named fields of the 12 common types, 1-3000 items, "
           "nesting <= 6, empty names/strings/raw items, UTF-8 incl. non-ASCII field names, user type codes, NaN payloads, +-0/inf/denormals, integer extremes) built NATIVELY as C++ Message (each field through a randomly chosen construction route: append, prepend in reverse, sliding window, replace-at, build-longer-then-remove, both ends; so rings wrap and fields pass inline<->array), "
           "C MMessage, C UMessage, Python message.Message and by the reference codec ref/codec.py (written from the layout comment only); "
-          "all byte strings must be identical, every implementation must read the C++ bytes back to the script's content through its own "
+          "all byte strings must be identical, every implementation must read the C++ bytes back to the script's content (into a fresh object or, for a PRNG-chosen share, into a USED object that already holds a same/unrelated/superset/subset/other-typed Message) through its own "
           "getters and re-serialise them identically, and C++ must do the same with the C codecs' bytes; a case is non-trivial when the "
           "Message has at least one field and two items.  frame: one case = 1-12 Messages framed by MessageIOGateway, MGDoOutput, UGDoOutput "
           "(compared with the hand-written [length LE]['Enc0'] frame and with each other, read back crosswise through chopped pipes) and sent "
@@ -31,7 +31,7 @@ SPEC = dict(
                  'python3 (CPython >= 3.8) is available; if it cannot be started the run is a harness failure (exit 2), never a pass',
                  'g++ 12 ASan/UBSan/LSan report what they claim to report; the misaligned link pointer in MiniMessageGateway.c is allow-listed (DESIGN.md 2.1)'],
     legs=[
-        Leg('regress', 'h_wire', 'asan', opts=_o(mode='regress'), quick=6, thorough=6, workers=1, leaks=True, min_cases=6),
+        Leg('regress', 'h_wire', 'asan', opts=_o(mode='regress'), quick=7, thorough=7, workers=1, leaks=True, min_cases=7),
         Leg('wire', 'h_wire', 'asan', opts=_o(mode='wire'), quick=200000, thorough=8000000, workers=16, leaks=True),
         Leg('frame', 'h_wire', 'asan', opts=_o(mode='frame'), quick=3200, thorough=96000, workers=16, leaks=True, per_worker_min=10),
         Leg('memcheck', 'h_wire', 'plain', opts=_o(mode='wire'), quick=1200, thorough=32000, workers=16, valgrind=True),
@@ -44,9 +44,15 @@ SPEC = dict(
                  'user_typed_fields': 2000, 'py_str_items_in_user_typed_field': 2000,
                  'route_append': 20000, 'route_prepend': 20000, 'route_sliding_window': 20000, 'route_replace_at': 20000,
                  'route_longer_then_remove': 20000, 'route_both_ends': 20000, 'route_message_copied': 5000,
+                 'parse_into_used_target': 50000, 'parse_fieldless_into_used_target': 5000, 'parse_into_fresh_target': 20000, 'parse_into_pooled_target': 20000,
+                 'parse_into_target_filled_by_earlier_parse': 20000, 'parse_into_target_filled_by_add_api': 20000,
+                 'parse_into_used_target_prev_same': 5000, 'parse_into_used_target_prev_unrelated': 5000, 'parse_into_used_target_prev_superset': 5000,
+                 'parse_into_used_target_prev_same_names_other_types': 5000, 'parse_into_used_target_prev_subset': 5000,
+                 'mini_parse_into_used_target': 20000, 'mini_parse_fieldless_into_used_target': 2000,
+                 'py_parse_into_used_target': 20000, 'py_parse_fieldless_into_used_target': 2000,
                  'items_bool': 4000, 'items_i8': 4000, 'items_i16': 4000, 'items_i32': 4000, 'items_i64': 4000, 'items_f32': 4000, 'items_f64': 4000,
                  'items_str': 4000, 'items_pt': 4000, 'items_rc': 4000, 'items_raw': 4000, 'items_msg': 4000},
         'frame': {'frames_compared_in_memory': 2000, 'frames_echoed_by_python': 2000, 'python_echo_peers_started': 1},
-        'regress': {'python_documentation_example_checked': 1, 'documented_frame_checked': 1, 'wrapped_ring_fields_in_witness': 1},
+        'regress': {'python_documentation_example_checked': 1, 'documented_frame_checked': 1, 'wrapped_ring_fields_in_witness': 1, 'used_target_witness_checked': 1},
     },
 )
